@@ -31,7 +31,7 @@ OUTCOME_ARGS = {
     "addSuccess": lambda: {},
     "addError": lambda: {"details": {"d": text_content("e")}},
     "addFailure": lambda: {"details": {"d": text_content("f")}},
-    "addSkip": lambda: {"reason": "why"},
+    "addSkip": lambda: {"reason": ""},  # (what @unittest.skip("") produces: falsy, and still a reason)
     "addExpectedFailure": lambda: {"details": {"d": text_content("x")}},
     "addUnexpectedSuccess": lambda: {},
 }
